@@ -94,6 +94,9 @@ def run(ctx):
     scripts, meta = [], []
     combos = [(0, 0, 1, cc.CHALLENGE_C, cc.CHALLENGE_M), (1, 7, 4294967000, bytes(range(8)), bytes(range(9))), (2, 4294967294, 1, bytes(range(64)), bytes(range(63))),
               (0, 5, 9, bytes(range(100, 132)), bytes(range(8)))]
+    # challenges that end or begin with NUL / blank bytes, or consist of them (no layer may trim a challenge)
+    combos += [(0, 3, 4, cc.CHALLENGE_C[:15] + b"\x00", cc.CHALLENGE_M[:14] + b"\x00\x00"), (2, 1, 2, b"\x00" * 8 + b"abcdefgh", bytes(16)),
+               (1, 2, 3, b"  padded  \x00 ", b"\x00\x20meter\x20\x00")]
     if ctx.thorough:
         combos += [(2, 0, 1, bytes(range(16)), bytes(range(64))), (1, 1, 1, bytes(range(63)), bytes(range(32)))]
     for suite, cic, meter_ic, ch_c, ch_m in combos:
@@ -106,21 +109,21 @@ def run(ctx):
             if isinstance(plain, tuple):                 # an answer that is already ciphered (by another station)
                 ans, plain = plain[1], None
                 scripts.append([k, c, head + [[1, ans], [0, cc.get_v()]]])
-                meta.append((label, b"\x00", ready, k, mtitle, base))
+                meta.append((label, b"\x00", ready, k, mtitle, base, ch_m))
                 continue
             ans = peer.ggc(plain, ic=answer_ic)
             s = [k, c, head + [[1, ans], [0, cc.get_v()]]]
             scripts.append(s)
-            meta.append((label, plain, ready, k, mtitle, base))
+            meta.append((label, plain, ready, k, mtitle, base, ch_m))
         # orders: service requests and the reply at every point of the exchange
         for j in range(0, 5):
             for extra in ([0, cc.get_v()], [0, cc.set_v()], [0, cc.action_v(b"\x09\x01\x00")], [2], [0, cc.next_v(1)]):
                 full = head + [[1, peer.ggc(__import__("props.dlms_common", fromlist=["plain_apdu"]).plain_apdu(15, data=cc.octet(peer.hls_proof(client_challenge=ch_c))), ic=answer_ic)]]
                 scripts.append([k, c, full[:j] + [extra] + full[j:]])
-                meta.append((f"order_{j}", None, None, k, mtitle, base))
+                meta.append((f"order_{j}", None, None, k, mtitle, base, ch_m))
     ctx.corr([("dlms_script", s) for s in scripts], impl, "hls_exchanges", decisive=lambda op, a: True, skip_model=cc.unmodelled)
     # ---- search
-    for s, (label, plain, ready, k, mtitle, base) in zip(scripts, meta):
+    for s, (label, plain, ready, k, mtitle, base, ch_m) in zip(scripts, meta):
         rows = cc.run_impl(s[0], s[1], s[2])
         case = {"label": label, "script": lib.v_text(s)[:12000]}
         ctx.tried("hls_exchange", key=label + lib.v_text(s[0])[:80])
@@ -129,7 +132,8 @@ def run(ctx):
             if o == [2] and not isinstance(res, E):
                 before = prev[1]
                 sc = 0x10 + k[3]
-                want = bytes([sc]) + before[1].to_bytes(4, "big") + gmac(k[1], k[0] + before[1].to_bytes(4, "big"), bytes([sc]) + k[2] + before[5])
+                # over the challenge the meter SENT (not over whatever the connection stored)
+                want = bytes([sc]) + before[1].to_bytes(4, "big") + gmac(k[1], k[0] + before[1].to_bytes(4, "big"), bytes([sc]) + k[2] + ch_m)
                 if res != want or after[1] != before[1] + 1:
                     ctx.fail("hls_reply_not_standard", case, want.hex(), lib.v_text(res)[:100])
         # (2) no service request leaves the connection before the exchange has completed
